@@ -116,8 +116,9 @@ GKey(k, v) == IF k.by = "all" THEN 0 ELSE v.c.a
 (***************************************************************************)
 (* Value domains of the bounded model.                                     *)
 (***************************************************************************)
-NumVals == {P(0), P(-2), V(3, CA), V(1, CB)}
-NumValsMore == NumVals \cup {V(2, E), V(-1, CN)}
+\* 0 as data, a (data, {}) pair, contexts with one / several keys (CB already holds Count's key)
+NumVals == {P(0), V(-2, E), V(3, CA), V(1, CB)}
+NumValsMore == NumVals \cup {P(2), V(-1, CN)}
 D(i, c) == <<[i |-> i, c |-> c]>>
 \* 3*2^60, -3*2^60, 2^-60 (lost by float addition), 0.5 twice = a carry, 1 + 2^-15
 DVals == {P(D(76, 3)), P(D(76, -3)), V(D(68, 1), CA), P(D(71, 16384))}
@@ -130,6 +131,9 @@ VecVals(vs) ==
     [] vs = "pair3" -> {P(<<V(1, CA), V(5, CA), P(0)>>), V(<<V(2, CB), V(6, E), V(1, CA)>>, CA), P(<<V(3, CA), P(7), P(2)>>)}
     [] vs = "mixed3" -> {P(<<P(1), P(2), P(3)>>), V(<<V(4, CA), V(0, CB), P(-1)>>, CB), V(<<P(2), P(2), P(2)>>, CA)}
 Pad == [pad |-> TRUE]      \* None: padding of the shorter components (zip_longest)
+\* construct(*row); operator.add of two bare numbers, a TypeError (padding) falls back to the tuple
+Construct(k, row) == IF k.cons = "add" /\ \A i \in 1..Len(row) : "pad" \notin DOMAIN row[i]
+                     THEN row[1].d + row[2].d ELSE row
 HistVals == {P(0), V(1, CA), P(-1), V(3, CB)}
 HistValsMore == HistVals \cup {P(2), V(2, E)}
 Hist2Vals == {P(<<0, 0>>), V(<<2, 3>>, CA), P(<<1, 4>>), V(<<-1, 1>>, CB)}
@@ -147,23 +151,38 @@ ValsOf(k) ==
                           ELSE (IF Wide THEN NumValsMore ELSE NumVals)
     [] OTHER -> IF Wide THEN NumValsMore ELSE NumVals
 
-Count0 == [t |-> "Count", name |-> "count", start |-> 0]
-Count2 == [t |-> "Count", name |-> "n2", start |-> 2]
-Sum0 == [t |-> "Sum", start |-> 0]
-Sum5 == [t |-> "Sum", start |-> 5]
+\* opt: a variant that only the binding distinguishes (the model is the same):
+\*   "half"  Sum / Mean / VarianceMeanCount on floats: every number x of the model is the float x/2 (exact)
+\*   "odd"   Count / StoreFilled / GroupBy: the data are values that look like nothing (None, "", [], False, 0.0 ..)
+\*   "dep"   GroupBy driven through its deprecated aliases update() / clear()
+\*   "wrap"  Vectorize whose components are FillComputeSeq sequences around the elements
+CountO(name, start, opt) == [t |-> "Count", name |-> name, start |-> start, opt |-> opt]
+Count0 == CountO("count", 0, "")
+Count2 == CountO("n2", 2, "")
+SumO(start, opt) == [t |-> "Sum", start |-> start, opt |-> opt]
+Sum0 == SumO(0, "")
+Sum5 == SumO(5, "")
 DSumK == [t |-> "DSum", dstart |-> <<>>]
 DSum5 == [t |-> "DSum", dstart |-> D(72, 5)]          \* DSum(total=5)
-MeanK(inner, poe) == [t |-> "Mean", inner |-> inner, poe |-> poe]
+MeanO(inner, poe, opt) == [t |-> "Mean", inner |-> inner, poe |-> poe, opt |-> opt]
+MeanK(inner, poe) == MeanO(inner, poe, "")
 \* Mean.inner: "py" (no sum_seq), "DSum" / "Sum" (sum_seq = DSum() / Sum()), "Sum2" (sum_seq yields two
-\* values: Split([Sum(), Sum()]); all are yielded, only the first is divided; such a Mean has no reset)
-VMCg(corr, poe, given) == [t |-> "VMC", corr |-> corr, poe |-> poe, given |-> given]
+\* values: Split([Sum(), Sum()]); all are yielded, only the first is divided; such a Mean has a reset that
+\* raises LenaAttributeError), "Count" (sum_seq = Count(): a sum_seq whose result carries a context, which
+\* is merged into the yielded context; the "sum" is the number of values)
+VMCo(corr, poe, given, opt) == [t |-> "VMC", corr |-> corr, poe |-> poe, given |-> given, opt |-> opt]
+VMCg(corr, poe, given) == VMCo(corr, poe, given, "")
 VMC(corr, poe) == VMCg(corr, poe, FALSE)       \* given: sum_sq = Sum(), sum_ = Sum() passed explicitly
 \* Vectorize(seq, dim=n) (form "dim": n copies of one element) or Vectorize([seq1, ..]) (form "list");
-\* cons = "named": construct = a namedtuple class; vs: the vectors it is filled with
-VecOf(inners, form, cons, vs) == [t |-> "Vec", inners |-> inners, form |-> form, cons |-> cons, vs |-> vs]
+\* cons = "named": construct = a namedtuple class; "add": construct = operator.add (raises TypeError on a
+\* padded row: "a tuple is yielded"); vs: the vectors it is filled with
+VecW(inners, form, cons, vs, opt) == [t |-> "Vec", inners |-> inners, form |-> form, cons |-> cons, vs |-> vs, opt |-> opt]
+VecOf(inners, form, cons, vs) == VecW(inners, form, cons, vs, "")
 Vec(inner) == VecOf(<<inner, inner>>, "dim", "tuple", "num2")
-Store(grp) == [t |-> "Store", grp |-> grp]
-GroupByK(by) == [t |-> "GroupBy", by |-> by]
+StoreO(grp, opt) == [t |-> "Store", grp |-> grp, opt |-> opt]
+Store(grp) == StoreO(grp, "")
+GroupByO(by, opt) == [t |-> "GroupBy", by |-> by, opt |-> opt]
+GroupByK(by) == GroupByO(by, "")
 Hist(var) == [t |-> "Hist", var |-> var, edges |-> <<0, 1, 2, 3>>,
               init |-> CASE var = "plain" -> <<0, 0, 0>> [] var = "bins" -> <<1, 0, 2>>
                          [] var = "make" -> <<5, 5, 5>> [] var = "iv" -> <<7, 7, 7>>]
@@ -184,6 +203,10 @@ AllKinds == {Count0, Count2, Sum0, Sum5, DSumK,
              VecOf(<<Sum0, MeanK("py", FALSE)>>, "list", "tuple", "num2"),
              VecOf(<<Store(TRUE), Count0, Sum5>>, "list", "tuple", "mixed3"),
              GraphI(None, TRUE, <<<<1, 7>>, <<0, 3>>>>, CA),
+             SumO(5, "half"), VMCo(FALSE, FALSE, FALSE, "half"), MeanK("Count", FALSE),
+             VecW(<<Sum0, Sum0>>, "dim", "tuple", "num2", "wrap"),
+             VecOf(<<Store(FALSE), Sum0>>, "list", "add", "num2"),
+             GroupByO("a", "dep"), StoreO(FALSE, "odd"),
              Store(TRUE), Store(FALSE), GroupByK("all"), GroupByK("a"),
              Hist("plain"), Hist("bins"), Hist("make"), Hist("iv"), Hist2,
              GraphK(None, TRUE), GraphK(None, FALSE), GraphK(2, TRUE)}
@@ -195,6 +218,10 @@ MoreKinds == {VecOf(<<Sum0, Store(FALSE)>>, "list", "tuple", "num2"),
               VecOf(<<VMC(TRUE, FALSE), Sum0>>, "list", "tuple", "num2"),
               VecOf(<<MeanK("py", TRUE), MeanK("py", TRUE), MeanK("py", TRUE)>>, "dim", "tuple", "num3"),
               MeanK("Sum", TRUE), MeanK("Sum2", FALSE), VMCg(FALSE, TRUE, TRUE),
+              MeanO("py", FALSE, "half"), VMCo(TRUE, FALSE, FALSE, "half"), MeanK("Count", TRUE),
+              CountO("count", 0, "odd"), GroupByO("a", "odd"), GroupByO("all", "dep"), StoreO(TRUE, "odd"),
+              VecW(<<MeanK("py", TRUE), Store(FALSE)>>, "list", "tuple", "num2", "wrap"),
+              VecOf(<<Sum0, Sum0>>, "dim", "add", "num2"),
               GraphI(2, FALSE, <<<<1, 7>>, <<0, 3>>>>, CS)}
 ThoroughKinds == AllKinds \cup MoreKinds
 RECURSIVE FreshKind(_)
@@ -228,7 +255,8 @@ FillState(k, s, v) ==
   CASE k.t = "Count" -> [n |-> s.n + 1, ctx |-> v.c]
     [] k.t = "Sum" -> [total |-> s.total + v.d, ctx |-> v.c]
     [] k.t = "DSum" -> [total |-> PolyAdd(s.total, PolyOf(v.d)), ctx |-> v.c]
-    [] k.t = "Mean" -> [sum |-> IF k.inner = "DSum" THEN PolyAdd(s.sum, PolyOf(v.d)) ELSE s.sum + v.d,
+    [] k.t = "Mean" -> [sum |-> IF k.inner = "DSum" THEN PolyAdd(s.sum, PolyOf(v.d))
+                                ELSE IF k.inner = "Count" THEN s.sum + 1 ELSE s.sum + v.d,
                         count |-> s.count + 1, ctx |-> v.c]
     [] k.t = "VMC" -> [sumsq |-> s.sumsq + v.d * v.d, sum |-> s.sum + v.d, count |-> s.count + 1, ctx |-> v.c]
     [] k.t = "Vec" -> [els |-> [i \in 1..Len(k.inners) |-> FillState(k.inners[i], s.els[i], v.d[i])], ctx |-> v.c]
@@ -262,7 +290,9 @@ Result(k, s) ==
     [] k.t = "DSum" -> Ok(<<Out(PolySeq(s.total), s.ctx)>>)
     [] k.t = "Mean" ->
          IF s.count = 0 THEN (IF k.poe THEN Ok(<<>>) ELSE ZeroDiv)
-         ELSE Ok(<<Out([s |-> IF k.inner = "DSum" THEN PolySeq(s.sum) ELSE s.sum, n |-> s.count], s.ctx)>>
+         ELSE Ok(<<Out([s |-> IF k.inner = "DSum" THEN PolySeq(s.sum) ELSE s.sum, n |-> s.count],
+                       \* update_recursively(context, context of the sum): Count brings its key
+                       IF k.inner = "Count" THEN Put(s.ctx, "count", s.sum) ELSE s.ctx)>>
                  \o (IF k.inner = "Sum2" THEN <<Out(s.sum, s.ctx)>> ELSE <<>>))
     [] k.t = "VMC" ->
          IF s.count = 0 THEN (IF k.poe THEN Ok(<<>>) ELSE ZeroDiv)
@@ -279,7 +309,7 @@ Result(k, s) ==
              rs == [i \in 1..n |-> Result(k.inners[i], s.els[i])] IN
          IF \E i \in 1..n : ~rs[i].ok THEN Exc("Any")
          ELSE Ok([j \in 1..SetMax({Len(rs[i].out) : i \in 1..n}) |->
-                    Out([i \in 1..n |-> IF j <= Len(rs[i].out) THEN rs[i].out[j] ELSE Pad], s.ctx)])
+                    Out(Construct(k, [i \in 1..n |-> IF j <= Len(rs[i].out) THEN rs[i].out[j] ELSE Pad]), s.ctx)])
     [] k.t = "Store" -> IF k.grp THEN Ok(<<P(s.group)>>) ELSE Ok(s.group)
     [] k.t = "GroupBy" -> Ok([j \in 1..Len(s.groups) |-> P(s.groups[j].vals)])
     [] k.t \in {"Hist", "Hist2"} -> Ok(<<V([bins |-> s.bins, oor |-> s.oor], s.ctx)>>)
@@ -325,7 +355,9 @@ Expected(k, fs) ==
     [] k.t = "DSum" -> Ok(<<Out(PolySeq(PolySum(<<k.dstart>> \o ds)), c)>>)
     [] k.t = "Mean" ->
          IF n = 0 THEN (IF k.poe THEN Ok(<<>>) ELSE ZeroDiv)
-         ELSE Ok(<<Out([s |-> IF k.inner = "DSum" THEN PolySeq(PolySum(ds)) ELSE SumSeq(ds), n |-> n], c)>>
+         ELSE Ok(<<Out([s |-> IF k.inner = "DSum" THEN PolySeq(PolySum(ds))
+                                ELSE IF k.inner = "Count" THEN n ELSE SumSeq(ds), n |-> n],
+                       IF k.inner = "Count" THEN Put(c, "count", n) ELSE c)>>
                  \o (IF k.inner = "Sum2" THEN <<Out(SumSeq(ds), c)>> ELSE <<>>))
     [] k.t = "VMC" ->
          IF n = 0 THEN (IF k.poe THEN Ok(<<>>) ELSE ZeroDiv)
@@ -343,7 +375,7 @@ Expected(k, fs) ==
              rs == [i \in 1..m |-> Expected(k.inners[i], [j \in 1..n |-> ds[j][i]])] IN
          IF \E i \in 1..m : ~rs[i].ok THEN Exc("Any")
          ELSE Ok([j \in 1..SetMax({Len(rs[i].out) : i \in 1..m}) |->
-                    Out([i \in 1..m |-> IF j <= Len(rs[i].out) THEN rs[i].out[j] ELSE Pad], c)])
+                    Out(Construct(k, [i \in 1..m |-> IF j <= Len(rs[i].out) THEN rs[i].out[j] ELSE Pad]), c)])
     [] k.t = "Store" -> IF k.grp THEN Ok(<<P(fs)>>) ELSE Ok(fs)
     [] k.t = "GroupBy" ->
          LET keys == Firsts([j \in 1..n |-> GKey(k, fs[j])], {}) IN
@@ -383,7 +415,11 @@ ResetA == /\ st' = ResetState(ekind, st) /\ ekind' = FreshKind(kind)
 Fill == /\ Len(h) < MaxLen
         /\ \E v \in ValsOf(kind) : FillA(v) /\ h' = Append(h, [op |-> "f", x |-> v])
 Compute == /\ Len(h) < MaxLen /\ ComputeA /\ h' = Append(h, [op |-> "c", x |-> res'])
-Reset == /\ Len(h) < MaxLen /\ HasReset(kind) /\ ResetA /\ h' = Append(h, [op |-> "r", x |-> 0])
+\* Mean over a sum_seq without reset: reset() raises LenaAttributeError and changes nothing
+ResetRaises == /\ op' = "resetx" /\ UNCHANGED <<kind, ekind, st, since, res>>
+Reset == /\ Len(h) < MaxLen
+         /\ IF HasReset(kind) THEN ResetA /\ h' = Append(h, [op |-> "r", x |-> 0])
+            ELSE ResetRaises /\ h' = Append(h, [op |-> "rx", x |-> 0])
 Next == Fill \/ Compute \/ Reset
 Spec == Init /\ [][Next]_vars
 
